@@ -945,6 +945,73 @@ def o_own_objects(inp):
     return None
 
 
+ZERO_ROUTES = {
+    # route -> (what, strict).  strict: a constructor that must raise ValueError/TypeError and never return an object;
+    # not strict: a plain method returning an ndarray, which on the unmodified code answers NaN: it must never answer a FINITE result
+    'DCM(q=)': ('quaternion', True), 'DCM.from_quaternion': ('quaternion', False), 'DCM.from_q': ('quaternion', False),
+    'Quaternion': ('quaternion', True), 'Quaternion(versor=False)': ('quaternion', True), "Quaternion(order='S')": ('quaternion', True),
+    'QuaternionArray': ('quaternion', True), 'QuaternionArray(versors=False)': ('quaternion', True),
+    'DCM(axang=)': ('axis', True), 'DCM.from_axisangle': ('axis', False), 'DCM.from_axang': ('axis', False),
+    'DCM': ('matrix', True), 'Quaternion(dcm=)': ('matrix', True),
+    'rotate_by': ('quaternion', False), 'DCM(q=Quaternion-row-of-zeros view)': ('quaternion', True),
+}
+
+
+def o_zero_inputs(inp):
+    """an exactly-zero quaternion / axis / matrix (alone, or as one row / one matrix of a batch, at the first, a middle or the last
+    position) can never be turned into a rotation: constructors raise ValueError/TypeError, plain methods never answer a finite result"""
+    import ahrs
+    route = inp['route']
+    what, strict = ZERO_ROUTES[route]
+    dim = {'quaternion': inp.get('dim', 4), 'axis': 3, 'matrix': 9}[what]
+    N, pos = inp.get('N', 0), inp.get('pos', 0)
+    zero = np.zeros(dim) * (-1.0 if inp.get('negzero') else 1.0)
+    if inp.get('mixzero'):
+        zero[::2] = -0.0
+    if what == 'matrix':
+        zero = zero.reshape(3, 3)
+        good = cm.Rspec(_nrm(np.array([1.0, 2.0, 3.0, 4.0])))
+    else:
+        good = np.arange(1.0, dim + 1.0)
+    if N:
+        arg = np.array([good * (k + 1) if what != 'matrix' else good for k in range(N)])
+        arg[pos] = zero
+    else:
+        arg = zero
+    form = inp.get('form', 'ndarray')
+    arg = arg.tolist() if form == 'list' else tuple(arg.tolist()) if form == 'tuple' else arg
+    ang = inp.get('angle', 0.3)
+    rows = np.array([[1.0, 2.0, 3.0, 4.0], [0.0, 1.0, 0.0, 0.0], [4.0, 3.0, 2.0, 1.0]])
+    call = {
+        'DCM(q=)': lambda: ahrs.DCM(q=arg),
+        'DCM.from_quaternion': lambda: ahrs.DCM().from_quaternion(np.array(arg, float)),
+        'DCM.from_q': lambda: ahrs.DCM().from_q(np.array(arg, float)),
+        'Quaternion': lambda: ahrs.Quaternion(arg),
+        'Quaternion(versor=False)': lambda: ahrs.Quaternion(arg, versor=False),
+        "Quaternion(order='S')": lambda: ahrs.Quaternion(arg, order='S'),
+        'QuaternionArray': lambda: ahrs.QuaternionArray(arg),
+        'QuaternionArray(versors=False)': lambda: ahrs.QuaternionArray(arg, versors=False),
+        'DCM(axang=)': lambda: ahrs.DCM(axang=(arg, ang)),
+        'DCM.from_axisangle': lambda: ahrs.DCM().from_axisangle(np.array(arg, float), ang),
+        'DCM.from_axang': lambda: ahrs.DCM().from_axang(np.array(arg, float), ang),
+        'DCM': lambda: ahrs.DCM(np.array(arg, float) if form == 'ndarray' else arg),
+        'Quaternion(dcm=)': lambda: ahrs.Quaternion(dcm=np.array(arg, float)),
+        'rotate_by': lambda: ahrs.QuaternionArray(rows).rotate_by(arg),
+        'DCM(q=Quaternion-row-of-zeros view)': lambda: ahrs.DCM(q=(ahrs.QuaternionArray(rows) * 0.0)[pos % 3] if not N else ahrs.QuaternionArray(rows) * np.array([[float(k != pos % 3)] for k in range(3)])),
+    }[route]
+    try:
+        with np.errstate(all='ignore'):
+            r = np.asarray(call())
+    except REJ:
+        return None
+    where = '' if not N else '-in-batch-' + ('first' if pos == 0 else 'last' if pos == N - 1 else 'middle')
+    if strict:
+        return {'tag': f'{route}/zero-{what}-accepted{where}', 'observed': r, 'expected': 'ValueError'}
+    if r.dtype.kind == 'f' and r.size and np.all(np.isfinite(r)):
+        return {'tag': f'{route}/zero-{what}-gives-finite-result{where}', 'observed': r, 'expected': 'ValueError or a non-finite answer'}
+    return None
+
+
 DCM_METHODS = [('shepperd', {}), ('hughes', {}), ('chiaverini', {}), ('sarabandi', {}), ('sarabandi', {'threshold': 0.5}),
                ('itzhack', {'version': 1}), ('itzhack', {'version': 2}), ('itzhack', {'version': 3})]
 
@@ -1000,7 +1067,7 @@ def o_dcm_methods(inp):
     return None
 
 
-ORACLES = {'own_objects': o_own_objects, 'dcm_methods': o_dcm_methods, 'quat': o_quat, 'ops': o_ops, 'dcm_route': o_dcm_route, 'so3_boundary': o_so3_boundary, 'decision': o_decision}
+ORACLES = {'zero_inputs': o_zero_inputs, 'own_objects': o_own_objects, 'dcm_methods': o_dcm_methods, 'quat': o_quat, 'ops': o_ops, 'dcm_route': o_dcm_route, 'so3_boundary': o_so3_boundary, 'decision': o_decision}
 
 NS = (1, 2, 3, 4, 5, 7)
 
@@ -1172,6 +1239,32 @@ def search(ctx, scale):
             ctx.check('so3_boundary', inp, cm_call(o_so3_boundary, inp, entry), nontrivial_key=(entry, 'near', i))
             inp = {'entry': entry, 'M': [[repr(x) if x != x else x for x in r] for r in far.tolist()], 'expect': 'reject', 'family': fam}
             ctx.check('so3_boundary', inp, cm_call(o_so3_boundary, inp, entry), nontrivial_key=(entry, fam, i))
+    # ---- exactly-zero quaternion / axis / matrix through every route, alone and at every position of a batch
+    for route, (what, strict) in ZERO_ROUTES.items():
+        batch = route in ('DCM(q=)', 'DCM.from_quaternion', 'DCM.from_q', 'QuaternionArray', 'QuaternionArray(versors=False)', 'DCM',
+                          'DCM(q=Quaternion-row-of-zeros view)')
+        single = not route.startswith('QuaternionArray')
+        cases = []
+        if single:
+            for form in forms:
+                for neg in (False, True):
+                    cases.append({'route': route, 'form': form, 'negzero': neg})
+            cases.append({'route': route, 'mixzero': True})
+            if route.startswith('Quaternion') and 'dcm' not in route:
+                cases += [{'route': route, 'dim': 3, 'form': f} for f in forms]
+            if what == 'axis':
+                cases += [{'route': route, 'angle': a} for a in (0.0, math.pi, -2.0, 1e-9)]
+        if batch:
+            for N in NS:
+                for pos in sorted({0, N // 2, N - 1}):
+                    for form in (forms if N in (1, 3) else forms[:1]):
+                        c = {'route': route, 'N': N, 'pos': pos, 'form': form, 'negzero': (N + pos) % 2 == 1}
+                        cases.append(c)
+                        if route.startswith('QuaternionArray'):
+                            cases.append({**c, 'dim': 3})
+        for inp in cases:
+            ctx.check('zero_inputs', inp, cm_call(o_zero_inputs, inp, route),
+                      nontrivial_key=(route, inp.get('N', 0), inp.get('pos', 0), inp.get('form'), inp.get('dim'), inp.get('negzero'), inp.get('angle')))
     # ---- instances of the package's own classes and arrays derived from them as inputs
     names = list(own_cases())
     for rep in range(2 * scale):
